@@ -185,6 +185,18 @@ class Interp:
         return False
 
 
+    def _package_function(self, call: ast.Call):
+        """the plain (non-generator) function of the package a call resolves to by name, if exactly one has that name"""
+        name = (dotted_name(call.func) or '').split('.')[-1]
+        prog = getattr(self.module, '_prog', None) or _PROG
+        if prog is None or not name or not isinstance(call.func, (ast.Name, ast.Attribute)):
+            return None
+        if isinstance(call.func, ast.Attribute) and not (isinstance(call.func.value, ast.Name) and call.func.value.id not in ('os', 'shutil', 'json', 'self', 'fp', 'torch', 'tempfile', 'logging')):
+            return None
+        cands = [(m, m.functions[name]) for m in prog.modules.values() if name in m.functions
+                 and not any((dotted_name(d) or '').endswith('contextmanager') for d in m.functions[name].decorator_list)]
+        return cands[0] if len(cands) == 1 else None
+
     # ---- context-manager helpers defined in the package (generator functions used with `with`) ----------------------
     def _context_helper(self, call: ast.Call):
         name = (dotted_name(call.func) or '').split('.')[-1]
@@ -340,8 +352,37 @@ class Interp:
             nf = fs.set(b, fs.get(a))
             self.visit(nf, st, text)
             return {(nf, envt)}, E, E
+        if dn in ('os.chmod', 'os.utime', 'os.stat', 'os.chown') and call.args:
+            a = self.path_key(call.args[0], env)
+            self.effects_seen.add(f"{dn}(name{a})")
+            if fs.get(a) == A:
+                return E, {state}, E          # FileNotFoundError, nothing changed
+            return {state}, E, E              # metadata only: the content is untouched
         if dn in ('os.close', 'os.fsync', 'os.fdopen') or dn in NOOP_CALLS:
             return {state}, E, E
+        # a function of the package that is handed one of the protocol's paths (`replace_file(name + '.new', name)`): its body is part of the protocol — inlined with its
+        # path parameters bound, like the writer itself
+        helper = self._package_function(call)
+        if helper is not None and not self._is_writer_call(call):
+            hm, hf = helper
+            bound = bind_args(hf, call)
+            binding = {}
+            for pname, ex in bound.items():
+                if self.is_path_expr(ex, env):
+                    binding[pname] = self.path_key(ex, env)
+            if binding:
+                depth = getattr(self, '_depth', 0)
+                if depth >= 3:
+                    raise Unsupported(st, f"helper {hf.name} nested deeper than 3 calls")
+                sub = Interp(hf, hm, {}, path_binding=binding)
+                sub._depth = depth + 1
+                sub.write_exceptions = self.write_exceptions
+                sub.visited = self.visited
+                sub.effects_seen = self.effects_seen
+                n, r, t = sub.block(hf.body, {(fs, ())})
+                self.effects_seen.add(f"{hf.name}({', '.join(f'{k}=name{v}' for k, v in sorted(binding.items()))})")
+                back = lambda ss: {(f, envt) for f, _ in ss}
+                return back(n) | back(t), back(r), E
         if self._has_fs_call(call):
             raise Unsupported(st, f"file-system call {ast.unparse(call.func)} not understood")
         return None
